@@ -756,6 +756,22 @@ func c15GenProgram(rt *rapid.T, single bool) []prog.Op {
 			ops = append(ops, prog.Op{K: "reopen"})
 			continue
 		}
+		if rapid.IntRange(0, 5).Draw(rt, "reput") == 0 {
+			// the same bytes again under the same key, with other metadata: only the metadata changes
+			var puts []prog.Op
+			for _, o := range ops {
+				if o.K == "put" {
+					puts = append(puts, o)
+				}
+			}
+			if len(puts) > 0 {
+				o := puts[rapid.IntRange(0, len(puts)-1).Draw(rt, "which")]
+				o.Meta = [][2]string{{"X-Amz-Meta-Tag", fmt.Sprintf("re%d", i)}, {"Content-Type", fmt.Sprintf("text/re%d", i)}}
+				o.Via = ""
+				ops = append(ops, o)
+				continue
+			}
+		}
 		op := c02GenOp(rt, single, false)
 		if op.K == "put" && rapid.IntRange(0, 3).Draw(rt, "bigbody") == 0 {
 			op.Body = prog.Pattern(rapid.SampledFrom([]int{4096, 40000, 100000}).Draw(rt, "big"), uint64(i))
@@ -768,6 +784,28 @@ func c15GenProgram(rt *rapid.T, single bool) []prog.Op {
 func c15Run(t *testing.T, c *evid.Collector) {
 	persistent := kindsFromEnv(backends.Persistent)
 	// ---- (a) reopen programs
+	// fixed reopen programs on every persistent configuration (ignore the seed)
+	if evid.Shard() == 0 {
+		mt := func(v string) [][2]string { return [][2]string{{"X-Amz-Meta-V", v}, {"Content-Type", "text/" + v}} }
+		same := []byte("the same bytes, uploaded twice")
+		for _, k := range persistent {
+			for fi, fixed := range [][]prog.Op{
+				{{K: "put", B: "bk0", Key: "a", Body: same, Meta: mt("first")}, {K: "get", B: "bk0", Key: "a"}, {K: "put", B: "bk0", Key: "a", Body: same, Meta: mt("second")}, {K: "reopen"}},
+				{{K: "put", B: "bk0", Key: "d/x", Body: same, Meta: mt("first")}, {K: "reopen"}, {K: "head", B: "bk0", Key: "d/x"}, {K: "put", B: "bk0", Key: "d/x", Body: same, Meta: mt("second")}, {K: "reopen"}},
+				{{K: "put", B: "bk0", Key: "a", Body: same, Meta: mt("first")}, {K: "copy", B: "bk0", Key: "a", SB: "bk0", SKey: "a", Meta: mt("by-copy")}, {K: "reopen"}},
+				{{K: "put", B: "bk0", Key: "a", Body: same, Meta: mt("first")}, {K: "del", B: "bk0", Key: "a"}, {K: "put", B: "bk0", Key: "a", Body: same, Meta: mt("second")}, {K: "reopen"}, {K: "del", B: "bk0", Key: "a"}, {K: "reopen"}},
+			} {
+				var ops []prog.Op
+				if !k.IsSingle() {
+					ops = append(ops, prog.Op{K: "mkbucket", B: "bk0"})
+				}
+				cs := c15Case{Backend: k, Ops: append(ops, fixed...)}
+				ds, _ := c15Reopen(cs)
+				c.Case(evid.FP("reopen-fixed", mustJSON(cs)), true, func() interface{} { return cs }, "check:reopen", "backend:"+string(k), fmt.Sprintf("src:fixed-%d", fi))
+				report(c, "reopen", ds, cs)
+			}
+		}
+	}
 	rapidRun(t, "reopen", evid.Scale(250, 5000), func(rt *rapid.T) {
 		k := rapid.SampledFrom(persistent).Draw(rt, "backend")
 		cs := c15Case{Backend: k, Ops: c15GenProgram(rt, k.IsSingle())}
